@@ -673,7 +673,9 @@ def check_scalar_forms(desc, ctx):
                     got = _scalar(fn(form(k)), what)
                 except CalculationError:
                     raise Violation(f"{what} is refused although {nm}({float(k)!r}) = {ref!r}", tag="form_integer")
-                if not (got == ref or abs(got - ref) <= 1e-12 * abs(ref) or (np.isnan(got) and np.isnan(ref))):
+                # (the integer and the float of the same number may take slightly different arithmetic paths, e.g.
+                #  int ** float; near a pole of the inverse that is amplified - a wrong dtype gives gross errors instead)
+                if not (got == ref or abs(got - ref) <= 1e-8 * abs(ref) or (np.isnan(got) and np.isnan(ref))):
                     raise Violation(f"{what} = {got!r} but {nm}({float(k)!r}) = {ref!r}", tag="form_integer")
             ctx.label("integer_forms_checked")
     if deferred:
